@@ -54,6 +54,13 @@ func genCfg(r *Rng) *handCfg {
 	}
 	if r.Chance(0.3) && n*4+8 <= len(deck) {
 		c.hole, c.req = 4, 2
+	} else if r.Chance(0.1) {
+		// unusual hole-card rules the engine accepts as well
+		c.hole = 1 + r.Intn(4)
+		c.req = r.Intn(c.hole + 1)
+		if n*c.hole+8 > len(deck) {
+			c.hole, c.req = 2, 2
+		}
 	}
 	c.deck = permute(r, deck)
 	if r.Chance(0.12) && c.hole == 2 {
